@@ -29,10 +29,12 @@ Theorem C01_posterior_inactive_zero (K' : nat) (tiny : R) (w l : nat -> R) (b : 
 Proof. exact (posterior_inactive_zero K' tiny w l b k). Qed.
 Print Assumptions C01_posterior_inactive_zero.
 
-(* the floor is not taken when some arg-max class is active with weight >= tiny (every class has mass) *)
+(* the floor is not taken when the best ACTIVE class has weight >= tiny (every class has mass) - whatever the log-pdfs of
+   the classes the source-activity mask declares inactive (before fix 'masked scaling' the hypothesis had to be "an
+   arg-max class over ALL classes is active": the soak found the input on which it fails) *)
 Theorem C01_posterior_floor_inactive (K' : nat) (tiny : R) (w l : nat -> R) (b : nat -> bool) :
   0 < tiny -> (forall k, (k < S K')%nat -> 0 <= w k) ->
-  (exists k, (k < S K')%nat /\ l k = bmax RO K' l /\ b k = true /\ tiny <= w k) ->
+  (exists k, (k < S K')%nat /\ b k = true /\ tiny <= w k /\ forall j, (j < S K')%nat -> b j = true -> l j <= l k) ->
   tiny <= rsum (S K') (unnorm RO K' w l b).
 Proof. intros Ht Hw He. eapply posterior_floor_inactive; eauto. Qed.
 Print Assumptions C01_posterior_floor_inactive.
@@ -104,5 +106,5 @@ Print Assumptions C01_deflation_column_valid.
 Example C01_hypotheses_satisfiable :
   let w := fun _ : nat => / 2 in let l := fun _ : nat => 0 in let b := fun _ : nat => true in
   / 1000 <= rsum 2 (unnorm RO 1 w l b).
-Proof. cbn [rsum]. unfold unnorm, shifted. cbn [bmax]. unfold omax. cbn [oleb omul oexp oadd oopp obool o1 RO].
+Proof. cbn [rsum]. unfold unnorm, shifted, lmask. cbn [bmax]. unfold omax. cbn [oleb omul oexp oadd oopp obool o1 RO].
   destruct (Rleb 0 0); replace (0 + - 0) with 0 by ring; rewrite exp_0; lra. Qed.
